@@ -317,9 +317,16 @@ static void apply_request_flags(int flags, char **t) {
     buffer_copy_path_len2(&r->physical.path, BUF_PTR_LEN(basedir), BUF_PTR_LEN(&r->uri.path));
     buffer_free(basedir);
 
-    /* path-info found by the filesystem walk of http_response_physical_pathinfo(): last K bytes */
-    uint32_t k = (uint32_t)atoi(t[1]);
+    /* path-info as found by the filesystem walk of http_response_physical_pathinfo():
+     * everything from the K-th '/' from the end (not the leading one) */
+    uint32_t k = 0;
     uint32_t plen = buffer_clen(&r->uri.path);
+    {
+        int nth = atoi(t[1]);
+        for (uint32_t i = plen; nth > 0 && i > 1; --i) {
+            if (r->uri.path.ptr[i-1] == '/' && 0 == --nth) k = plen - (i-1);
+        }
+    }
     if (k > 0 && k < plen) {
         buffer_copy_string_len(&r->pathinfo, r->uri.path.ptr + plen - k, k);
         buffer_truncate(&r->uri.path, plen - k);
